@@ -153,18 +153,27 @@ def mc_task(logic, n, ftxts, opts=None):
                        encoded=sorted(h.vm.encoded), shared=shared, formula_changed=(str(f) != fstr0), stmts=h.vm.stats['stmts'])
             # ---- decide
             care = total_text(n, fixed=fixed)
+            depths = None
+            if logic != 'CTL' or opts.get('ctls_oracle'):
+                depths = oracle_depths(f, n, aps, fixed)
             d = Decider(care, timeout_ms=opts.get('timeout_ms', 300000), record=bool(opts.get('cross')))
             T2, lab2 = matrix(n, fixed=fixed), labels(n, aps, fixed=fixed)
-            if logic == 'CTL':
+            if logic == 'CTL' and not opts.get('ctls_oracle'):
                 want = oracles.ctl(f, T2, lab2, n)
+                rec['oracle'] = 'CTL fixpoints, n unrollings each'
+                stable = False
             else:
-                dp = oracles.Depths('fixed', inner=n * 2 ** 5, outer=n * 2 ** 5) if False else None
-                want = ctls_oracle_raw(f, T2, lab2, n, d, rec, fixed)
-            allbad = bad_exact + [excg, unw, notset] + mut
+                dp = oracles.Depths('fixed', inner=depths.max_inner, outer=depths.max_outer)
+                ost = []
+                want = oracles.ctls(f, T2, lab2, n, depths=dp, stats=ost)
+                stable = dp.unstable
+                rec['oracle'] = dict(kind='product + Emerson-Lei', inner_unrollings=depths.max_inner, outer_unrollings=depths.max_outer,
+                                     products=ost)
+            allbad = bad_exact + [excg, unw, notset, stable] + mut
             r_all = d.differ(resv, want, allbad)
             if r_all == 'unsat':
                 # one query proves every aspect at once
-                rec.update(verdict='unsat', noexc='unsat', unwind='unsat', pure='unsat', isset='unsat')
+                rec.update(verdict='unsat', noexc='unsat', unwind='unsat', pure='unsat', isset='unsat', stable='unsat')
             else:
                 r = d.differ(resv, want, bad_exact)
                 rec['verdict'] = r
@@ -178,6 +187,7 @@ def mc_task(logic, n, ftxts, opts=None):
                 if rec['pure'] == 'sat':
                     rec['pure_model'] = d.model_of(['(or false %s)' % ' '.join(d.term(b) for b in mut)])
                 rec['isset'] = d.violated(notset) if notset is not False else 'unsat'
+                rec['stable'] = d.violated(stable) if stable is not False else 'unsat'
             if resv2 is not None:
                 rec['recall'] = d.differ(resv2, want)
             # twin: the answer is not a constant vector (the structure matters) and the assumption is satisfiable
@@ -196,10 +206,23 @@ def mc_task(logic, n, ftxts, opts=None):
     return out
 
 
-def ctls_oracle_raw(f, T2, lab2, n, d, rec, fixed):
-    """CTL*/LTL oracle as a raw circuit: unrolling depths found on a reduced twin first, then emitted un-reduced with
-    that depth; the solver also proves that one more unrolling changes nothing (stability obligation)."""
-    raise NotImplementedError
+def oracle_depths(f, n, aps, fixed, fair_names=()):
+    """number of unrollings the product fixpoints need, found with functional reduction on (not trusted: the raw oracle
+    is emitted with these depths and the solver proves that one more unrolling changes nothing)"""
+    from .harness import tnames, lnames, total_of
+    was_on = TT['on']
+    if not was_on:
+        names = [x for x in tnames(n) + lnames(n, aps) + list(fair_names) if x not in fixed]
+        see.enable_tt(names)
+        care = total_of(matrix(n, fixed=fixed), n)
+        see.restrict_care(care)
+    dp = oracles.Depths('stable')
+    T, lab = matrix(n, fixed=fixed), labels(n, aps, fixed=fixed)
+    fair = [[var('%s_%d' % (nm, i)) for i in range(n)] for nm in fair_names] if fair_names else None
+    oracles.ctls(f, T, lab, n, fair=fair, depths=dp)
+    if not was_on:
+        see.tt_off()
+    return dp
 
 
 # ------------------------------------------------------------------ replay
@@ -233,3 +256,71 @@ def mc_replay(pid, rec, model=None):
     path = write_replay(pid, body)
     ok, out = run_replay(path)
     return (path if ok else None), out
+
+
+# ------------------------------------------------------------------ lasso certificates for the oracle (C02)
+def certify_task(ftxts, n=2, aps=('p', 'q')):
+    """for every formula A g and state s: a structure on which the ORACLE excludes s, and a concrete lasso from s
+    satisfying not g, found by the solver and re-evaluated by the independent lasso evaluator"""
+    from .smt import SmtProc
+    out = []
+    for ftxt in ftxts:
+        see.reset()
+        f = parse('LTL', ftxt)
+        g = f.subformula(0)
+        T, lab = matrix(n), labels(n, aps)
+        dp = oracles.Depths('fixed', inner=n * 8, outer=n * 8)
+        want = oracles.ctls(f, T, lab, n, depths=dp)
+        smt = SmtProc(timeout_ms=60000)
+        rec = dict(formula=ftxt, certified=0, failed=[], never_excluded=0)
+        for s in range(n):
+            r = smt.check(total_of_nodes(T, n), b_not(want[s]), b_not(dp.unstable))
+            if r != 'sat':
+                rec['never_excluded'] += 1
+                continue
+            m = smt.values()
+            R, L = model_to_structure(m, n, aps)
+            lasso = find_lasso(g, s, n, R, L)
+            if lasso is None:
+                rec['failed'].append(dict(state=s, R=R, L=L))
+            else:
+                rec['certified'] += 1
+                rec['example'] = dict(state=s, R=R, L=L, lasso=lasso)
+        smt.close()
+        out.append(rec)
+    return out
+
+
+def total_of_nodes(T, n):
+    return b_and(*[b_or(*T[i]) for i in range(n)])
+
+
+def find_lasso(g, s, n, R, L, kmax=None):
+    """concrete lasso x_0=s .. x_{k-1} -> x_l in (R, L) whose word violates g; search by SAT over one-hot position states"""
+    from .smt import SmtProc
+    kmax = kmax or 4 * n + 4
+    for k in range(1, kmax + 1):
+        for l in range(k):
+            see.reset()
+            x = [[var('x%d_%d' % (i, a)) for a in range(n)] for i in range(k)]
+            wf = [b_and(b_or(*x[i]), *[b_not(b_and(x[i][a], x[i][b])) for a in range(n) for b in range(a + 1, n)]) for i in range(k)]
+            wf.append(x[0][s])
+            for i in range(k):
+                j = i + 1 if i + 1 < k else l
+                wf.append(b_or(*[b_and(x[i][a], x[j][b]) for (a, b) in R]))
+            val = lambda name, i: b_or(*[x[i][a] for a in range(n) if name in L[a]])
+            viol = b_not(oracles.lasso_eval(g, k, l, val)[0])
+            smt = SmtProc(timeout_ms=30000)
+            r = smt.check(viol, *wf)
+            if r == 'sat':
+                m = smt.values()
+                smt.close()
+                word = [[a for a in range(n) if m.get('x%d_%d' % (i, a))][0] for i in range(k)]
+                # independent re-evaluation on the concrete word
+                cval = lambda name, i: name in L[word[i]]
+                ok = oracles.lasso_eval(g, k, l, cval)[0] is False and all((word[i], word[i + 1 if i + 1 < k else l]) in R for i in range(k))
+                if ok:
+                    return dict(states=word, loop_to=l)
+            else:
+                smt.close()
+    return None
